@@ -695,6 +695,30 @@ Definition pow_math_env (vars : list string) (ivs : list (string * string)) (roo
   | Ok eqs => units_pass_all ivs eqs
   | Crash _ => None
   end.
+(** trigger condition of a separate analyser defect (family Kunits-exponent-unavailable, observed, not modelled
+    further): some POWER / ROOT-with-DEGREE exponent whose value is "not available" (a ci without initial_value, a
+    piecewise, ...) leaves powerData.mExponentValueAvailable false, and analyseEquationUnits later reads
+    ast->right->right of an unrelated node. *)
+Fixpoint exponent_unavailable_a (ivs : list (string * string)) (a : ast) {struct a} : bool :=
+  match a with
+  | Ast t v x l r =>
+      (match l with Some c => exponent_unavailable_a ivs c | None => false end)
+      || (match r with Some c => exponent_unavailable_a ivs c | None => false end)
+      || match t with
+         | POWER => match power_value ivs r true with PvDone false => true | _ => false end
+         | ROOT => match l with
+                   | Some (Ast DEGREE _ _ _ _) => match power_value ivs l true with PvDone false => true | _ => false end
+                   | _ => false
+                   end
+         | _ => false
+         end
+  end.
+Definition exponent_unavailable (vars : list string) (ivs : list (string * string)) (root : xml) : bool :=
+  match ana_math_env vars root with
+  | Ok eqs => existsb (exponent_unavailable_a ivs) eqs
+  | Crash _ => false
+  end.
+
 Definition stod_result_name (r : stod_result) : string :=
   match r with StodValue => "value" | StodInvalidArgument => "invalid_argument" | StodOutOfRange => "out_of_range" end.
 
